@@ -34,8 +34,8 @@ EXPLANATION = (
     'Union.__eq__ tag and value; Attribute.__set__ treats only None on a nullable field as unset. '
     'Decides this structural part, not value equality.'
     ' R7/R8 (imported from C08-R2/R3 and C10-R5): a value can only round-trip if the generated validators accept every valid value (bounds inclusive, Nullable delegating, constructors carrying every parameter and the Nullable wrap) and every declared default is emitted (an unset defaulted field otherwise fails to encode).'
-    ' RD (decision drift, stonelint.conddrift): the tests of the functions this property is anchored in (stonelint.ownership) are compared with reference/conditions.json; a relation, polarity or connective changed over the same operands, or an operand purely added or dropped, is a violation; re-spellings and new or removed tests are not claimed.'
-    " RE (expression drift, stonelint.exprdrift): the same functions' attribute names, variable reads, simple statements, calls and arithmetic/slice literals are compared with reference/expressions.json; a substituted attribute or variable, a dropped call or assignment, swapped arguments or a changed literal is a violation; any other edit is not claimed. RC (call-condition drift, stonelint.conddrift.run_calls): for every call of a repository or imported-library function in those functions, the path conditions of its occurrences are compared with reference/conditions.json by truth table; an assignment under which the function used to make the call and now completes without it is a violation (tests on memo tables, emptiness of the iterated collection and earlier refusals excepted; re-spelled conditions are not claimed). MK (memo-key rule, stonelint.memo): a memo table or done-set the reference tree does not have must be keyed by every access path the skipped code reads, injectively and type-aware.")
+    ' RD (effect-condition drift, stonelint.effects): for the functions this property is anchored in (stonelint.ownership) the path formula of every raise / return / continue / break / assignment / call statement is compared with reference/effects.json by truth table over the leaf tests (so nested vs merged tests, guard clauses vs if/else ladders, De Morgan forms read alike); an effect lost on a path, or a control effect gained on one, is a violation; changed texts and re-spelled tests are not claimed.'
+    " RE (expression drift, stonelint.exprdrift): the same functions' attribute names, variable reads, simple statements, calls and arithmetic/slice literals are compared with reference/expressions.json; a substituted attribute or variable, a dropped call or assignment, swapped arguments or a changed literal is a violation; any other edit is not claimed. RC (call-condition drift, stonelint.effects.run_calls): for every call of a repository or imported-library function in those functions, the path conditions of its occurrences are compared with reference/effects.json by truth table; an assignment under which the function used to make the call and now completes without it is a violation (tests on memo tables, emptiness of the iterated collection and earlier refusals excepted; re-spelled conditions are not claimed). MK (memo-key rule, stonelint.memo): a memo table or done-set the reference tree does not have must be keyed by every access path the skipped code reads, injectively and type-aware.")
 ASSUMPTIONS = [
     'new-style JSON only (old_style and msgpack excluded, as in the property)',
     'class-test atoms on a local refer to its value after the last assignment on the path',
@@ -502,12 +502,12 @@ def run(pm, ctx):
 
     validators_return_their_argument(pm, ctx)
 
-    from ..conddrift import run_decisions
+    from ..effects import run_decisions
     from ..ownership import OWN
     run_decisions(pm, ctx, 'C04-RD', OWN['C04'])
     from .. import exprdrift
     exprdrift.run(pm, ctx, 'C04-RE', OWN['C04'])
-    from ..conddrift import run_calls
+    from ..effects import run_calls
     run_calls(pm, ctx, 'C04-RC', OWN['C04'])
     from .. import memo
     memo.run(pm, ctx, 'C04-MK', OWN['C04'])
